@@ -133,6 +133,12 @@ pub fn request_classes() -> Vec<(String, Dims)> {
         out.push((format!("{}:inside-by-half-a-second", c), Dims { date: 8, ..z }));
         out.push((format!("{}:on-the-future-edge-with-a-fraction", c), Dims { date: 9, ..z }));
         out.push((format!("{}:folded-form-future-by-half-a-second", c), Dims { form: 1, date: 7, ..z }));
+        if token == 0 {
+            // an hour-old / ten-hour-old request that declares a validity period of a day (X-Amz-Expires)
+            out.push((format!("{}:expired-but-declares-a-day-of-validity", c), Dims { date: 2, token: 2, ..z }));
+            out.push((format!("{}:valid-and-declares-a-day-of-validity", c), Dims { token: 2, ..z }));
+            out.push((format!("{}:future-but-declares-a-day-of-validity", c), Dims { date: 3, token: 2, ..z }));
+        }
         out.push((format!("{}:arity", c), Dims { cred: 1, ..z }));
         out.push((format!("{}:scope", c), Dims { cred: 3, ..z }));
         // scope dates that only a lenient or numeric comparison would take for the right one
@@ -519,7 +525,7 @@ pub fn run(ctx: &Ctx) -> Report {
     Report {
         stats: st,
         rule: format!(
-            "(1) {} request classes (one per stage of the documented order on each carrier, plus valid and wrong signature, with and without a session token, four classes with a folded form body, three whose scope date is a look-alike of the right one (leading zero, plus sign, blank in place of a zero pad), five at the edges of the freshness window at sub-second resolution (half a second outside / inside either way, exactly on the edge with a nine-digit fraction; timestamps written with fractions), and two whose signature is valid under the all-zero / all-0xFF key) x {} provider behaviours: poll_ready answers Pending k times (k <= {p}) then Ready or one of 16 errors (13 SignatureError shapes, io::Error, String, private type); the call's future is Pending j times (j <= {p}) then the correct key, a wrong key or one of the 16 errors; plus an io::Error of each of the 36 stable ErrorKinds, boxed directly and wrapped as SignatureError::IO, as the call's answer and as the readiness error. Invariants on every execution: call only after Ready, at most once; requests failing an earlier rule never touch the provider and their error does not depend on it; a SignatureError from the provider comes back with the same kind, code, status and message, any other error as InternalServiceError/500; no provider error or wrong key ends in Ok; the validation future is polled at least 1+k+j times (a Pending is never taken as an answer). (2) every sequence of 1..{} validations over {} (request, behaviour) symbols on ONE provider instance (key rotation correct->wrong->correct, errors, delays): each step's outcome and provider-call count equal what the model says for that step alone (incl. a valid request presented to a validation configured for another service right after it was accepted for its own). (3) a history of 18 validations through the crate's own adapter service_for_signing_key_fn with an invocation counter. states = distinct (class, outcome, provider log length) and distinct history outcome vectors",
+            "(1) {} request classes (one per stage of the documented order on each carrier, plus valid and wrong signature, with and without a session token, four classes with a folded form body, three whose scope date is a look-alike of the right one (leading zero, plus sign, blank in place of a zero pad), three that declare a day of validity through X-Amz-Expires (expired, valid, future), five at the edges of the freshness window at sub-second resolution (half a second outside / inside either way, exactly on the edge with a nine-digit fraction; timestamps written with fractions), and two whose signature is valid under the all-zero / all-0xFF key) x {} provider behaviours: poll_ready answers Pending k times (k <= {p}) then Ready or one of 16 errors (13 SignatureError shapes, io::Error, String, private type); the call's future is Pending j times (j <= {p}) then the correct key, a wrong key or one of the 16 errors; plus an io::Error of each of the 36 stable ErrorKinds, boxed directly and wrapped as SignatureError::IO, as the call's answer and as the readiness error. Invariants on every execution: call only after Ready, at most once; requests failing an earlier rule never touch the provider and their error does not depend on it; a SignatureError from the provider comes back with the same kind, code, status and message, any other error as InternalServiceError/500; no provider error or wrong key ends in Ok; the validation future is polled at least 1+k+j times (a Pending is never taken as an answer). (2) every sequence of 1..{} validations over {} (request, behaviour) symbols on ONE provider instance (key rotation correct->wrong->correct, errors, delays): each step's outcome and provider-call count equal what the model says for that step alone (incl. a valid request presented to a validation configured for another service right after it was accepted for its own). (3) a history of 18 validations through the crate's own adapter service_for_signing_key_fn with an invocation counter. states = distinct (class, outcome, provider log length) and distinct history outcome vectors",
             classes.len(), nb, depth, k, p = max_pending
         ),
         bounds: json!({"max_pending": max_pending, "history_depth": depth, "history_alphabet": k, "executions": total, "histories": nh}),
